@@ -1,6 +1,8 @@
 import Driver.Codec
 import CardVerif.Model.Evaluators
 import CardVerif.Spec.Poker5
+import CardVerif.Spec.Strength
+import CardVerif.Model.Omaha
 open Lean CardVerif CardVerif.Codec
 
 namespace CardVerif.Driver
@@ -14,5 +16,44 @@ def opRank5 (j : Json) : P Json := do
   let hands ← asList asCards (← fld j "hands")
   pure (Json.mkObj [("model", listJ (fun h => keyJ (Rank5.rank5 h)) hands),
                     ("spec", listJ (fun h => listJ natJ (Poker5.specKey h)) hands)])
+
+/-- op "omaha": {deals:[[board, hand]...]} → {fast, brute, spec} per deal -/
+def opOmaha (j : Json) : P Json := do
+  let deals ← asList (asList asCards) (← fld j "deals")
+  let one (d : List (List Card)) : Json :=
+    match d with
+    | [b, h] => Json.mkObj [("fast", keyJ (Omaha.handStrengthFast b h)), ("brute", keyJ (Eval.omahaBrute b h)),
+                            ("spec", listJ natJ (Strength.omahaSpec b h))]
+    | _ => Json.null
+  pure (Json.mkObj [("out", listJ one deals)])
+
+/-- op "holdem": {deals:[[board, hand]...]} → {model, spec} per deal -/
+def opHoldem (j : Json) : P Json := do
+  let deals ← asList (asList asCards) (← fld j "deals")
+  let one (d : List (List Card)) : Json :=
+    match d with
+    | [b, h] => Json.mkObj [("model", keyJ (Eval.holdemStrength b h)), ("spec", listJ natJ (Strength.holdemSpec b h))]
+    | _ => Json.null
+  pure (Json.mkObj [("out", listJ one deals)])
+
+/-- op "tiers": {game, board, hands} → tiers | "!err" -/
+def opTiers (j : Json) : P Json := do
+  let board ← asCards (← fld j "board")
+  let hands ← asList asCards (← fld j "hands")
+  let f := if (← asStr (← fld j "game")) == "PLO" then Omaha.handStrengthFast else Eval.holdemStrength
+  match Eval.bestHandsGeneric f board hands with
+  | .ok t => pure (Json.mkObj [("tiers", listJ (listJ natJ) t)])
+  | .error e => pure (errJ e)
+
+/-- op "strength": {cases:[[board, hand4, hand2]...]} → per case {fast, brute, ospec, holdem, hspec} -/
+def opStrength (j : Json) : P Json := do
+  let cs ← asList (asList asCards) (← fld j "cases")
+  let one (d : List (List Card)) : Json :=
+    match d with
+    | [b, h4, h2] => Json.mkObj [("fast", keyJ (Omaha.handStrengthFast b h4)), ("brute", keyJ (Eval.omahaBrute b h4)),
+        ("ospec", listJ natJ (Strength.omahaSpec b h4)), ("holdem", keyJ (Eval.holdemStrength b h2)),
+        ("hspec", listJ natJ (Strength.holdemSpec b h2))]
+    | _ => Json.null
+  pure (Json.mkObj [("out", listJ one cs)])
 
 end CardVerif.Driver
